@@ -707,6 +707,33 @@ def r12(ctx):
              key='chunk-prefix', witness=bad, what='demux.py: the first chunk writes without the temporary prefix')
 
 
+@rule('C01', 'C01-R13', 'the read-pair budget of `-n` is a budget per library: the counter the remaining budget is computed from (`args.n - <counter>`) is set to zero inside the loop over the '
+                        'libraries - a counter that survives from one library to the next cuts every later library short, its reads are in no output')
+def r13(ctx):
+    m = ctx.ix.module(DEMUX)
+    uses = [b for b in ast.walk(m.tree) if isinstance(b, ast.BinOp) and isinstance(b.op, ast.Sub) and src(b.left) == 'args.n' and isinstance(b.right, ast.Name)]
+    ctx.need('C01-R13', len(uses), 1, 'remaining-budget expressions `args.n - <counter>` in demux.py')
+    for k, u in enumerate(uses):
+        cnt = u.right.id
+        loops = []
+        n_ = u
+        while n_ in m.parent:
+            n_ = m.parent[n_]
+            if isinstance(n_, ast.For) and 'librar' in src(n_.iter):
+                loops.append(n_)
+        if not loops:
+            ctx.emit('C01-R13', False, DEMUX, u, f'`{src(u)}` is not inside a loop over the libraries', key=f'budget-per-library:{k}', undecided=True)
+            continue
+        lib = loops[-1]          # the outermost: the loop over the libraries themselves (the lanes of one library share its budget)
+        zero = [a for a in ast.walk(m.tree) if isinstance(a, ast.Assign) and any(isinstance(t, ast.Name) and t.id == cnt for t in a.targets) and isinstance(a.value, ast.Constant) and a.value.value == 0]
+        inside = [a for a in zero if any(x is a for x in ast.walk(lib))]
+        ok = bool(inside)
+        ctx.emit('C01-R13', ok, DEMUX, inside[0] if inside else (zero[0] if zero else u), f'`{cnt}` is reset for every library (line {inside[0].lineno})' if ok else
+                 f'`{cnt}` is set to zero once, outside the loop over the libraries (line {zero[0].lineno if zero else "?"}): with -n the second library gets the budget the first one left over',
+                 key=f'budget-per-library:{k}', witness={'libraries': 2, '-n': 4, 'second library': 'maxReadPairs = 4 - 4 = 0'} if not ok else None,
+                 what='demux.py: the -n counter is not reset per library')
+
+
 META = {
     'text': ('Decides, for the loader loop on every control-flow path of one (read pair, strategy) iteration including every exception edge and '
              'all 8 targetFile/rejectHandle/probe configurations: exactly one sink write completes when both handles are present (never both, never '
